@@ -555,7 +555,7 @@ func run(r *mon.Run) {
 			}
 			// sections whose name belongs to the other version, with well-formed content for that name and with decoy index
 			// content: whatever the reader makes of them, it must find the sections after them where they are
-			for _, nm := range []string{"manifest", "primary", "critical", "signatures"} {
+			for _, nm := range []string{"manifest", "primary", "critical", "signatures", "Index", "INDEX", "Responses", "Primary", "inde\u0445", "re\u017fponses"} {
 				known := false
 				for _, o := range order {
 					known = known || o == nm
